@@ -737,6 +737,30 @@ func witnessCharLevel() Doc {
 	return d
 }
 
+// witnessBlankGlyphLine: three glyph-by-glyph pages with a running header and footer whose
+// producer typesets spacing as glyphs: the word spaces are glyphs of their lines and the
+// empty paragraph between the two body lines is a line of one space glyph. The header and
+// the footer go from every page (with their space glyphs); the body lines and the blank
+// line stay.
+func witnessBlankGlyphLine() Doc {
+	var d Doc
+	for i := 0; i < 3; i++ {
+		p := Page{I: i, H: 792, W: 612}
+		p.F = append(p.F, Frag{T: "ACME Report", X: 72, Y: 760, H: 12, FS: 12, L: -1})
+		p.F = append(p.F, Frag{T: fmt.Sprintf("Sheet %c opens here", 'A'+i), X: 72, Y: 600, H: 12, FS: 12, L: -1})
+		p.F = append(p.F, Frag{T: fmt.Sprintf("Sheet %c closes here", 'A'+i), X: 72, Y: 400, H: 12, FS: 12, L: -1})
+		p.F = append(p.F, Frag{T: "Internal use only", X: 72, Y: 30, H: 12, FS: 12, L: -1})
+		p, _ = spaceGlyphs(hx.NewRng(uint64(i)), explode(p), pageGeom{H: 792, W: 612}, spacing{words: true, marginPage: -1}, false)
+		p.Lines = append(p.Lines, LLine{T: " ", X: 72, Y: 500, H: 12})
+		blank := Frag{T: " ", X: 72, Y: 500, W: 6, H: 12, FS: 12, L: len(p.Lines) - 1}
+		k := len(p.F) / 2 // somewhere in the stream
+		p.F = append(p.F[:k:k], append([]Frag{blank}, p.F[k:]...)...)
+		d.Pages = append(d.Pages, p)
+	}
+	d.Tags = "witness-blank-glyph-line"
+	return d
+}
+
 // witnessCover: a glyph-by-glyph cover page (title in the top band, imprint in the
 // bottom band, no running lines), a word-level chapter opener between the sheets, and
 // a running header + footer on the other pages. Nothing may be removed from the cover
@@ -789,7 +813,8 @@ func Run(c *hx.Ctx) {
 		"all but the first, odd/even alternation or a random subset; page numbers in 13 styles (3, Page 3, 3 / 10, - 3 -, Page 3 of 10, 3/10, p. 3, roman, …) " +
 		"in header or footer; body lines repeating across pages (incl. the header's own text placed in the body band just below the margin), purely numeric body lines; " +
 		"unique marginal texts; double-struck titles; positions jittered within/beyond tolerance; boundary distances 71/72/73; inverted (top-down, oversized) coordinates; " +
-		"character-level pages; empty pages; " +
+		"character-level pages, also from producers that typeset spacing as glyphs (the word spaces as glyphs of their lines, lines ending in a space glyph, empty paragraphs as lines of 1-3 space glyphs " +
+		"at free body positions and, on one page of a document, inside a margin band; direct documents only); empty pages; " +
 		"documents in which every page has its own size (portrait cover + landscape sheets, A4 mixed with Letter, one odd sheet, sheets scaled to 50-200 %) with the marginal lines " +
 		"at a constant distance from each page's own top/bottom edge; covers / chapter openers before and between the pages carrying the running lines (no header, footer or page number, " +
 		"a unique title / imprint in the band), with character-level pages chosen per page (only the openers, all but the openers, some, all). Each document goes through layout.NewHeaderFooterDetector().Detect(pages).FilterFragments(...) once on fresh copies and then, as a caller that keeps its own slices " +
@@ -817,7 +842,7 @@ func Run(c *hx.Ctx) {
 		"read by pptx.Open(f).TextWithOptions / MarkdownWithOptions (titles and notes on or off, all slides or a subset) and tabula.Open(f).ExcludeHeaders()/ExcludeFooters()/ExcludeHeadersAndFooters().Text() / ToMarkdown(), each with and without the flags; " +
 		"a shape is marginal iff its written <p:ph> has type ftr, dt, sldNum or hdr; c11.ptext is emitted on the slides as written. " +
 		"Non-trivial = at least one fragment was removed (histories: a judged request with exclusion ran; office: a flag was set; decks: the flags changed the answer)."
-	for wi, d := range []Doc{witnessB20(), witnessEmbeddedNumber(), witnessCharLevel(), witnessCover(), witnessMixedSizes()} {
+	for wi, d := range []Doc{witnessB20(), witnessEmbeddedNumber(), witnessCharLevel(), witnessCover(), witnessMixedSizes(), witnessBlankGlyphLine()} {
 		directCase(c, d, true)
 		script, kind := genScript(c.Rng.Fork(uint64(3_000_000+wi)), len(d.Pages))
 		seqCase(c, d, script, kind, true)
